@@ -25,6 +25,12 @@ PINS = [
     'mesonbuild.compilers.d:DCompilerArgs',
     'mesonbuild.build:BuildTarget.get_single_compile_base_args',
     'mesonbuild.build:BuildTarget._generate_single_compile_base_args',
+    'mesonbuild.compilers.compilers:Compiler.unix_args_to_native',
+    'mesonbuild.compilers.compilers:Compiler._unix_args_to_native',
+    'mesonbuild.backend.backends:Backend.generate_basic_compiler_args',
+    'mesonbuild.backend.backends:Backend.escape_extra_args',
+    'mesonbuild.backend.ninjabackend:NinjaBackend._generate_single_compile',
+    'mesonbuild.backend.ninjabackend:NinjaBackend._generate_single_compile_target_args',
 ]
 TRUSTED = [
     'stub compiler: unix_args_to_native is the identity, get_default_include_dirs returns fixed absolute paths',
@@ -36,6 +42,13 @@ TRUSTED = [
     'sharing: the reference-level Lean model assumes separation (Sep) of list objects; on the implementation the harness checks after '
     'every operation that no two live objects and no object and caller-owned list share a list object (id), and the frame conditions',
     'end-to-end leg: fake nasm/ninja programs on PATH, real gcc detection; ARGS read from build.ninja with a line regex',
+    'real-compiler to_native leg: gcc/clang found on this machine by meson\'s own detection; other linker flavours are the real compiler '
+    'object with its `linker` attribute replaced by an uninitialised instance of the real linker class; os.path.realpath (CPython) decides '
+    'which generated paths name a default include directory, for the model and for the oracle',
+    'assembly leg: the real Backend.generate_basic_compiler_args / NinjaBackend._generate_single_compile_target_args / '
+    '_generate_single_compile / BuildTarget._generate_single_compile_base_args run on uninitialised real target and backend objects whose '
+    'argument sources (compiler.get_*_args, build.get_project_args, ...) return the generated abstract groups; generate_inc_dir and the '
+    'vala branches are outside (not generated)',
 ]
 
 GEN_PATH = os.path.join(common.LEAN, 'MesonModel', 'Generated', 'ArgTables.lean')
@@ -707,10 +720,12 @@ def ref_append_direct(kind, L, a):
     return ref_add(kind, L, [a]) if a.startswith('/') else L + [a]
 
 
-def ref_native(cname: str, gnu: bool, dirs: bool, L: T.List[str]) -> T.List[str]:
+def ref_native(cname: str, gnu: bool, dirs: bool, L: T.List[str],
+               is_default: T.Optional[T.Callable[[str], bool]] = None) -> T.List[str]:
     if native_kind(classes()[cname]) != 'clike':
         return list(L)
-    from mesonbuild.compilers.mixins import clike
+    if is_default is None:
+        is_default = DEFAULT_DIRS.__contains__
     out = list(L)
     if gnu:
         libs = [i for i, a in enumerate(out) if doc_library_like(a)]
@@ -725,13 +740,13 @@ def ref_native(cname: str, gnu: bool, dirs: bool, L: T.List[str]) -> T.List[str]
                 skip = False
                 continue
             if a == '-isystem':
-                if i + 1 < len(out) and out[i + 1] in DEFAULT_DIRS:
+                if i + 1 < len(out) and is_default(out[i + 1]):
                     skip = True
                     continue
             elif a.startswith('-isystem='):
-                if a[9:] in DEFAULT_DIRS:
+                if is_default(a[9:]):
                     continue
-            elif a.startswith('-isystem') and a[8:] in DEFAULT_DIRS:
+            elif a.startswith('-isystem') and is_default(a[8:]):
                 continue
             keep.append(a)
         out = keep
@@ -1362,6 +1377,15 @@ def run(ctx: Ctx) -> None:
     # -- end-to-end: real frontend + Ninja backend on a target with several sources per language
     e2e_leg(ctx)
 
+    # -- to_native on real compiler objects (gcc-like and other linker flavours); the backend's assembly on abstract groups
+    from . import c13_backend
+    n0 = len(lines)
+    if len(ctx.violations) < 2:
+        c13_backend.native_real_leg(ctx, lines, impl, desc)
+    if len(ctx.violations) < 2:
+        c13_backend.assembly_leg(ctx, lines, impl, desc)
+    ctx.count(len(lines) - n0)
+
     # -- correspondence with the model
     if ctx.model_available:
         answers = ctx.driver('arglist', lines)
@@ -1370,6 +1394,8 @@ def run(ctx: Ctx) -> None:
                 if isinstance(d, Case):
                     ctx.disagreement({'kind': 'script', 'class': d.cname, 'gnu': d.gnu, 'dirs': d.dirs, 'script': d.script,
                                       'impl': a_impl, 'model': a_model})
+                elif d[0] in ('native-real', 'assemble'):
+                    ctx.disagreement({'kind': d[0], **d[1], 'impl': a_impl, 'model': a_model})
                 else:
                     ctx.disagreement({'kind': d[0], 'input': d[1], 'arg': d[2] if len(d) > 2 else None,
                                       'impl': a_impl, 'model': a_model})
@@ -1450,6 +1476,16 @@ def search(ctx: Ctx, disagreements: T.List[dict]) -> None:
                 rejudge(ctx, cl, cname, a)
     if len(ctx.violations) > before:
         return
+    kinds = {d.get('kind') for d in disagreements} & {'native-real', 'assemble'}
+    if kinds:
+        from . import c13_backend
+        for d in disagreements:            # the disagreeing inputs themselves first, under the oracle
+            if d.get('kind') in kinds:
+                c13_backend.replay_case(ctx, d)
+        if len(ctx.violations) == before:
+            c13_backend.search_more(ctx, kinds)
+        if len(ctx.violations) > before:
+            return
     for cname, sc in scripts:
         try:
             check_case(ctx, cl, Case(cname, True, True, sc, 'search'))
@@ -1476,7 +1512,14 @@ def replay(ctx: Ctx, rep: dict) -> None:
     if 'script' not in case and rep.get('correspondence_disagreements'):
         case = rep['correspondence_disagreements'][0]
     print('replay:', rep.get('what', rep.get('kind')))
-    if 'script' in case:
+    if case.get('kind') in ('native-real', 'assemble'):
+        from . import c13_backend
+        c13_backend.replay_case(ctx, case)
+        for v in ctx.violations:
+            print(' oracle:', v['key'], '-', v['what'])
+        if not ctx.violations and not ctx.known_hits:
+            print(' oracle: no violation')
+    elif 'script' in case:
         sc = [tuple(o) for o in case['script']]
         c = Case(case.get('class', 'clike'), bool(case.get('gnu')), bool(case.get('dirs')), sc, 'replay')
         ln, ans, _ = check_case(ctx, cl, c)
